@@ -276,9 +276,9 @@ theorem inv2_applyOp {s : St} (h : Inv2 s) (o : Op) : Inv2 (applyOp s o) := by
     refine inv2_of_pres h hI (Pres.trans (b := { s with joined := true, started := false, limit := 0 }) ?_
       (pres_teamQuit _))
     exact ⟨rfl, rfl, rfl, rfl, rfl, rfl, fun _ hc => hc, fun hx => Or.inl hx⟩
-  | pCall t r =>
+  | pCall t r cb =>
     refine inv2_of_pres h hI ?_
-    show Pres s (s.poolCall t r)
+    show Pres s (s.poolCall t r cb)
     unfold St.poolCall
     split
     · exact Pres.refl s
